@@ -354,6 +354,12 @@ def replay(f, ctx):
     from a5.core.origin import origins
     from a5.core.utils import A5Cell
     c = f['case']
+    if f['kind'] in ('wrong_when_interleaved', 'wrong_after_interleaving'):
+        run_shard({'part': 'interleave', 'n': 60, 'seed': 1, 'shard': 0}, ctx)
+        return
+    if f['kind'] in ('wrong_under_concurrent_callers', 'wrong_after_concurrent_callers'):
+        run_shard({'part': 'threads', 'seconds': 5, 'seed': 1, 'shard': 0}, ctx)
+        return
     if 'face' in c:
         try:
             i = ser.serialize(A5Cell(origin=origins[c['face']], segment=c['segment'], S=c['S'], resolution=c['r']))
